@@ -21,7 +21,7 @@ from ..cfg import cfg_of
 from ..core import Ctx
 from ..loader import AnalysisError, FunctionInfo, walk_scope
 from ..resolve import last_attr
-from ..util import HTTP_EXCHANGE, HTTP_INIT, calls, dominated, impl_invocations, mini_eval, names_in, one, some, txt
+from ..util import HTTP_EXCHANGE, HTTP_INIT, calls, dominated, impl_invocations, mini_eval, one, some, txt
 from ._g2_helpers import (
     AS,
     APP,
